@@ -629,6 +629,59 @@ func c15DecodeBody(r *vexp.Runner, x *vexp.X, menu []c15TLV, first, hm, ntlv int
 	return c15Result(r, vs, outcome, nontrivial, input)
 }
 
+// c15FormatAlphabet: every character the format parser distinguishes (endian flags, all integer codes, the pad
+// code, one unknown letter, a digit repeat count).
+var c15FormatAlphabet = []byte{'h', '<', '>', '!', 'H', 'b', 'B', 'i', 'I', 'l', 'L', 'q', 'Q', 'x', 'a', '2'}
+
+// c15FormatBody: header ++ format TLV with every string of 0..maxlen characters over c15FormatAlphabet ++
+// [shape TLV] ++ payload; everything else well-formed, so that what the decoder accepts is then put through
+// every accessor.
+func c15FormatBody(r *vexp.Runner, x *vexp.X, maxlen int) vexp.Result {
+	n := x.Choose(maxlen + 1)
+	fs := make([]byte, n)
+	for i := range fs {
+		fs[i] = c15FormatAlphabet[x.Choose(len(c15FormatAlphabet))]
+	}
+	tl := []c15TLV{c15raw("fmt'"+string(fs)+"'", tlvFORMAT, 1, fs...)}
+	switch x.Choose(3) {
+	case 0:
+		tl = append(tl, c15shape("shape[1]", 1))
+	case 1:
+		tl = append(tl, c15shape("shape[2]", 2))
+	}
+	pl := []int{16, 0, 8, 6}[x.Choose(4)]
+	hl := 16
+	for _, t := range tl {
+		hl += len(t.b)
+	}
+	nb := hl + pl
+	full := make([]byte, nb+c15Tail)
+	full[0] = 1
+	full[1] = byte(hl)
+	binary.BigEndian.PutUint16(full[2:], uint16(pl))
+	binary.BigEndian.PutUint32(full[4:], packetMAGIC)
+	binary.BigEndian.PutUint32(full[8:], c15Src)
+	binary.BigEndian.PutUint32(full[12:], c15SeqNo)
+	at := 16
+	for _, t := range tl {
+		at += copy(full[at:], t.b)
+	}
+	copy(full[at:at+pl], c15Pattern)
+	input := func() string {
+		names := make([]string, len(tl))
+		for i := range tl {
+			names[i] = tl[i].name
+		}
+		return fmt.Sprintf("datagram: version 1, header length %d, payload-length field %d, TLVs [%s]\nbytes: %s",
+			hl, pl, strings.Join(names, " | "), c15Hex(full[:nb]))
+	}
+	if x.Trace {
+		x.Logf("%s", input())
+	}
+	vs, outcome, nontrivial := c15CheckDatagram(r, x, full, nb)
+	return c15Result(r, vs, outcome, nontrivial, input)
+}
+
 // two well-formed datagrams (as the encoder emits them) for the truncation cases
 func c15WellFormed(which int) []byte {
 	p := NewPacket(1, c15Src, c15SeqNo, 3)
@@ -879,7 +932,9 @@ func c15RateZero(r *vexp.Runner, x *vexp.X) vexp.Result {
 	p := NewPacket(1, c15Src, c15SeqNo, 0)
 	p.SetTimestamp(&PacketTimestamp{T: 5, Rate: 0})
 	p.NewData([]int16{1, 2}, []int16{1})
-	input := func() string { return "NewPacket(1,..); SetTimestamp({T:5 Rate:0}); NewData([]int16{1,2}, [1]); Bytes()" }
+	input := func() string {
+		return "NewPacket(1,..); SetTimestamp({T:5 Rate:0}); NewData([]int16{1,2}, [1]); Bytes()"
+	}
 	type out struct {
 		b   []byte
 		pan string
@@ -923,18 +978,18 @@ func TestVerifC15(t *testing.T) {
 	r := vexp.NewRunner("C15")
 	defer r.Finish()
 	menu := c15Menu()
-	maxTLV := 3
+	maxTLV, fmtLen := 3, 3
 	nss := []c15NS{{"nodata", -1}, {"n0", 0}, {"n1", 1}, {"n2", 2}, {"n3", 3}, {"n8", 8}, {"nmax", -2}, {"nmax+1", -3}, {"n64k+4", -4}}
 	if r.Thorough() {
-		maxTLV = 4
+		maxTLV, fmtLen = 4, 5
 		nss = append(nss, c15NS{"n4", 4}, c15NS{"n5", 5}, c15NS{"n6", 6}, c15NS{"n7", 7}, c15NS{"n100", 100}, c15NS{"n1000", 1000})
 	}
 	r.SetBound(fmt.Sprintf("(A) every datagram = fixed header {header-length field consistent|+8|-8|+4|15} x {magic right|wrong} x {version 1|255} x "+
 		"payload-length field %v x payload bytes {exact|one short|eight extra} ++ every sequence of 0..%d TLVs from a %d-entry menu of valid and malformed encodings, "+
-		"decoded by ReadPacket and ReadPacketPlusPad(stride 8, 64), all accessors called on every success; every truncation of two encoder-made datagrams. "+
+		"decoded by ReadPacket and ReadPacketPlusPad(stride 8, 64), all accessors called on every success; every format string of 0..%d characters over %q x shape {[1]|[2]|none} x payload {16|0|8|6}; every truncation of two encoder-made datagrams. "+
 		"(B) NewPacket x [SetTimestamp before|after the data|set-then-reset] x [NewData]: int16|int32|int64 x %d sample counts (none, 0..8, largest fitting, one more, 64KiB+4) x dims %v "+
 		"x channel offsets %v x sequence numbers %v x versions %v x source ids %v x 2 value patterns x timestamp counters %v x rates %v; plus the rate-0 timestamp under a watchdog",
-		c15Plens, maxTLV, len(menu), len(nss), c15DimModes, c15Offs, c15Seqs, c15Vers, c15Srcs, c15Ts, c15Rates))
+		c15Plens, maxTLV, len(menu), fmtLen, string(c15FormatAlphabet), len(nss), c15DimModes, c15Offs, c15Seqs, c15Vers, c15Srcs, c15Ts, c15Rates))
 
 	// (A)
 	for hm := range c15Hmodes {
@@ -954,6 +1009,7 @@ func TestVerifC15(t *testing.T) {
 			}
 		}
 	}
+	r.DFS("A/format-strings", -1, func(x *vexp.X) vexp.Result { return c15FormatBody(r, x, fmtLen) })
 	for which := 0; which < 2; which++ {
 		which := which
 		r.DFS(fmt.Sprintf("A/truncate/wellformed%d", which), -1, func(x *vexp.X) vexp.Result {
